@@ -19,6 +19,7 @@ Record s1_state := mk_s1 {
   s1_name : bytes; s1_map : bytes; s1_mode : bytes; s1_ver : bytes; s1_max : N; s1_min : option N;
   s1_password : bool * bytes; s1_title : option bytes; s1_mail : option bytes;
   s1_admin : option (bool * bytes);         (* true: sent as AdminName, false: as admin *)
+  s1_admin_too : option bytes;              (* an `admin` variable sent next to AdminName: not the administrator's name, so it stays an unused entry *)
   s1_tournament : option (bool * bytes); s1_extras : list (bytes * bytes); s1_players : list s1_player;
   s1_qid : N; s1_limit : N; s1_final_first : bool }.
 
@@ -35,6 +36,11 @@ Definition s1_player_vars (i : N) (p : s1_player) : list (bytes * bytes) :=
   ++ opt_list (sp_secret p) (fun v => [(k "ngsecret"%string, snd v)]).
 Fixpoint indexed {A} (i : N) (l : list A) : list (N * A) :=
   match l with [] => [] | x :: r => (i, x) :: indexed (i + 1) r end.
+Definition s1_admin_extra (s : s1_state) : list (bytes * bytes) :=
+  match s1_admin s, s1_admin_too s with
+  | Some (true, _), Some v => [(str "admin", v)]
+  | _, _ => []
+  end.
 Definition s1_vars (s : s1_state) : list (bytes * bytes) :=
   [(str "hostname", s1_name s); (str "mapname", s1_map s); (str "gametype", s1_mode s); (str "gamever", s1_ver s);
    (str "maxplayers", show_N (s1_max s)); (str "password", snd (s1_password s))]
@@ -42,6 +48,7 @@ Definition s1_vars (s : s1_state) : list (bytes * bytes) :=
   ++ opt_list (s1_title s) (fun v => [(str "maptitle", v)])
   ++ opt_list (s1_mail s) (fun v => [(str "AdminEMail", v)])
   ++ opt_list (s1_admin s) (fun v => [((if fst v then str "AdminName" else str "admin"), snd v)])
+  ++ s1_admin_extra s
   ++ opt_list (s1_tournament s) (fun v => [(str "tournament", snd v)])
   ++ s1_extras s
   ++ flat_map (fun ip => s1_player_vars (fst ip) (snd ip)) (indexed 0 (s1_players s)).
@@ -70,7 +77,7 @@ Definition s1_expected (s : s1_state) : gs1_response :=
                            (sp_deaths1 p) (sp_health p) (match sp_secret p with Some v => Some (fst v) | None => None end))
          (s1_players s))
     (match s1_tournament s with Some v => fst v | None => true end)
-    (s1_extras s).
+    (s1_admin_extra s ++ s1_extras s).
 
 (* ================= GameSpy 2 ================= *)
 Record s2_state := mk_s2 {
@@ -208,11 +215,12 @@ Definition gen_s1 : G s1_state :=
   gen* maxp := gnum 32 in gen* minp := gopt (gnum 8) in gen* pw := gen_password_text in
   gen* title := gopt gval in gen* mail := gopt gval in
   gen* admin := gopt (gen* b := chance 1 2 in gen* v := gval in gret (b, v)) in
+  gen* admin_too := gopt gval in
   gen* tour := gopt gen_bool_text in
   gen* ne := below 5 in gen* extras := gen_kvs (N.to_nat ne) 0 in
   gen* np := gen_count64 in gen* ps := grepeat (N.to_nat np) gen_s1_player in
   gen* qid := gnum 16 in gen* limit := pick 900 [120; 300; 900; 900] in gen* ff := chance 1 2 in
-  gret (mk_s1 name mapn mode ver maxp minp pw title mail admin tour extras ps qid limit ff).
+  gret (mk_s1 name mapn mode ver maxp minp pw title mail admin admin_too tour extras ps qid limit ff).
 
 Definition gen_s2 : G s2_state :=
   gen* name := gval in gen* mapn := gval in gen* pw := pick (str "0") [str "0"; str "1"; str "true"; str ""] in
